@@ -2,18 +2,30 @@
 # usage: ./check.sh <property> <quick|thorough>   |   ./check.sh --build   |   ./check.sh <property> --replay <file>
 # Rebuilds the harness against /repo's current working tree (replace directives
 # in harness/go.mod) with the verif build tag, then runs the check.
+# VERIF_REPO=<dir> builds against another copy of the repository instead (used for
+# mutation runs and background sweeps on a snapshot); evidence then goes to VERIF_DIR or cwd.
 export GOFLAGS=-mod=mod GOPROXY=off GOSUMDB=off GOTOOLCHAIN=local
 cd "$(dirname "$0")" || exit 2
-mkdir -p bin evidence replay
+here="$(pwd)"
+export VERIF_DIR="${VERIF_DIR:-$here}"
+mkdir -p bin "$VERIF_DIR/evidence" "$VERIF_DIR/replay"
+modflag=""
+if [ -n "$VERIF_REPO" ]; then
+  mf="$here/bin/go.$$.mod"
+  sed "s#=> /repo/client#=> $VERIF_REPO/client#; s#=> /repo\$#=> $VERIF_REPO#" harness/go.mod > "$mf"
+  cp harness/go.sum "${mf%.mod}.sum"
+  modflag="-modfile=$mf"
+fi
+cleanup() { rm -f "$here/$bin" "$here/bin/go.$$.mod" "$here/bin/go.$$.sum"; }
 if [ "$1" = "--build" ]; then
-  (cd harness && go build -tags verif -o ../bin/vcheck ./cmd/vcheck) || exit 2
-  exit 0
+  (cd harness && go build $modflag -tags verif -o ../bin/vcheck ./cmd/vcheck) || exit 2
+  bin=""; cleanup; exit 0
 fi
 prop="$1"; shift
 tier="${1:-${VERIF_TIER:-quick}}"
 bin="bin/vcheck.$prop.$$"
-(cd harness && go build -tags verif -o "../$bin" ./cmd/vcheck) || { echo "INCONCLUSIVE build failed"; exit 2; }
-trap 'rm -f "$bin"' EXIT
+trap cleanup EXIT
+(cd harness && go build $modflag -tags verif -o "../$bin" ./cmd/vcheck) || { echo "INCONCLUSIVE build failed"; exit 2; }
 if [ "$tier" = "--replay" ]; then
   "./$bin" -prop "$prop" -replay "$2"
 else
